@@ -751,9 +751,20 @@ static void scen_files() {
   string D = gen_content(size, choose(1 << 16, "B.content"));
   string path = "/sim/data/file.bin";
   vfs::mkdir_p("/sim/data");
-  bool preexisting = choose(3, "B.preexisting");
+  unsigned preexisting = choose(4, "B.preexisting");
   if (preexisting == 1) vfs::mkfile(path, gen_content(size + 1 + choose(100, "B.pre.extra"), 77));
   if (preexisting == 2) vfs::mkfile(path, gen_content(size / 2, 78));
+  if (preexisting == 3 && size >= 2) {
+    // the file exists with the same size and the same beginning (a record whose later fields are being updated):
+    // identical up to and including a NUL byte, different afterwards
+    string old = D;
+    size_t at = choose_range(0, size - 2, "B.pre.nul_at");
+    old[at] = '\0';
+    D[at] = '\0';
+    for (size_t i = at + 1; i < size; i++) old[i] = (char)(D[i] ^ 0x5A);
+    vfs::mkfile(path, old);
+    VS_PROBE("save_file.same_size_file_exists");
+  }
   draw_faults(true, true);
   unsigned variant = choose(4, "B.variant");
   vfs::calls_reset();
@@ -1494,7 +1505,10 @@ static void scen_poll() {
   int fds[3];
   bool closed[3] = {false, false, false};
   bool closed_behind[3] = {false, false, false}; // closed by the owner while (possibly) still registered
-  for (int i = 0; i < 3; i++) fds[i] = vfs::open_stream_fd("data", 0, 0);
+  for (int i = 0; i < 3; i++) {
+    fds[i] = vfs::open_stream_fd("data", 0, 0);
+    vfs::fd_entry(fds[i])->explicit_ready = true;
+  }
   // shuffle registration order relative to numeric order
   std::map<int, short> model;
   vfs::Faults& f = vfs::world().faults;
@@ -1502,7 +1516,7 @@ static void scen_poll() {
   if (choose(4, "F.eintr") == 3) f.eintr = 4;
   unsigned nops = 2 + choose(14, "F.nops");
   mark_nontrivial();
-  static const short EVS[] = {POLLIN, POLLOUT, POLLIN | POLLOUT, POLLPRI};
+  static const short EVS[] = {POLLIN, POLLOUT, POLLIN | POLLOUT, POLLPRI, 0}; // (0: only hang-ups and errors are of interest)
   for (unsigned i = 0; i < nops && !failed(); i++) {
     unsigned k = choose(3, "F.fd");
     unsigned op = choose(6, "F.op");
@@ -1518,13 +1532,14 @@ static void scen_poll() {
     if (op == 5) op = 4;
     if (closed[k] && !closed_behind[k]) {
       fds[k] = vfs::open_stream_fd("data", 0, 0);
+      vfs::fd_entry(fds[k])->explicit_ready = true;
       closed[k] = false;
     }
     set_context("Poll op " + std::to_string(op));
     switch (op) {
       case 0:
       case 1: {
-        short evs = EVS[choose(4, "F.events")];
+        short evs = EVS[choose(5, "F.events")];
         if (model.count(fds[k])) VS_PROBE("poll.readd_existing");
         ev("op.poll.add", k, evs);
         p.add(fds[k], evs);
@@ -1652,7 +1667,7 @@ int main(int argc, char** argv) {
       {"concurrent deleter / replacer process", "stub: task scheduled between the library's path-based calls"}};
   e.expected_probes = {"read_all_fd.saw_short_read", "read_all_fd.crossed_16k_block", "read_all_file.error_mid_stream", "read_all_file.crossed_16k_block",
       "fgets.line_longer_than_block", "fgets.line_longer_than_two_blocks", "fgets.line_exactly_block", "readx.threw_on_short", "save_file.threw_on_write_fault",
-      "load_file.threw_on_read_fault", "unlink.threw_on_eacces", "scoped_fd.move_assign_over_open", "scoped_fd.failed_open", "poll.readd_existing", "poll.remove_present", "poll.registered_fd_closed", "read_all_fd.real_pipe", "read_helpers_on_regular_file", "tree_with_fifo", "tree_with_symlink", "scoped_fd.holds_descriptor_0", "load_file.file_truncated_concurrently", "read_all_file.real_fd_buffered", "FILE_on_sizeless_file"};
+      "load_file.threw_on_read_fault", "unlink.threw_on_eacces", "scoped_fd.move_assign_over_open", "scoped_fd.failed_open", "poll.readd_existing", "poll.remove_present", "poll.registered_fd_closed", "read_all_fd.real_pipe", "read_helpers_on_regular_file", "tree_with_fifo", "tree_with_symlink", "scoped_fd.holds_descriptor_0", "load_file.file_truncated_concurrently", "read_all_file.real_fd_buffered", "FILE_on_sizeless_file", "save_file.same_size_file_exists"};
   e.expected_faults = {"short_read", "short_write", "EIO@read", "EINTR@read", "ENOSPC@write", "EINTR@write", "EINTR@poll", "EACCES@unlink", "EACCES@rmdir", "concurrent_delete", "ENOSPC@capacity", "EINTR@close", "staggered_pipe_write", "EAGAIN@read", "concurrent_truncate", "second_thread_reads_another_fd"};
   // "file_replaced_while_open" fires only when the code under test asks the PATH again after opening it;
   // the repository's load_file uses fstat() on the descriptor, so on the unchanged tree the counter stays 0
